@@ -469,7 +469,7 @@ def ops_conf_line(ops, cid):
 def identify_leg(ctx, binp, corr_broken):
     """Round 6: IDENTIFY field by field (`idn` ops replayed through Nsq.Model.Identify.identifyFull) and the
     model-free oracle "the response document reflects exactly what was applied to the connection"."""
-    N = ctx.budget(2500, 30000)
+    N = ctx.budget(2500, 15000)
     rc, out = ctx.run_cmd([binp, "-test.run", "^TestVerifE3Identify$", "-test.count=1", "-test.timeout=3000s"],
                           timeout=3200, env={"VERIF_SEED": ctx.seed, "VERIF_N": N, "VERIF_OUT": ctx.work,
                                              "VERIF_REPO": REPO})
